@@ -92,12 +92,14 @@ def small_row_family(chk, found):
     never "null": thresholds on norms (absolute tolerances, isclose to zero, eps in a normalisation) show here."""
     mats = [[[1, 2, -1], [-2, F(1, 2), 1]], [[-4, 1, 1], [6, 1, 1]], [[3, -1, 2], [-3, 2, -1], [1, 1, -4]],
             [[2, 0, -1, 1], [-1, 1, 2, -2], [-2, -1, 0, 1]]]
-    for J0 in mats:
-        J = [[F(x) for x in r] for r in J0]
+    # every matrix also at the global scale 2^-36 (entries ~1e-11): the short row then has a norm below 1e-12, the
+    # default eps of torch.nn.functional.normalize and of many "is it zero" tests, while the others are above it
+    for J0, g in [(J0, g) for J0 in mats for g in (0, 36)]:
+        J = [[F(x) / 2 ** g for x in r] for r in J0]
         m = len(J)
         for name in ("PCGrad", "ConFIG", "Mean", "Sum", "Random"):
             for j in range(m):
-                for k in (10, 14, 18, 24):
+                for k in ((10, 14, 18, 24) if g == 0 else (10, 14)):
                     c1 = [F(1)] * m
                     c1[j] = F(1, 2 ** k)
                     c2 = [F(1) + F(i, 4) for i in range(m)]
@@ -123,7 +125,7 @@ def small_row_family(chk, found):
                                           f"diag(c1) J is 2^-{k} times the others (relative defect {err/sc:.3e})", rep)
                             found.add((name, A.jsonable(J).__repr__(), dt))
                             return
-    chk.count({"small_row_family": "4 matrices x 5 aggregators x rows x 2^-10..2^-24"}, nontrivial=True)
+    chk.count({"small_row_family": "4 matrices x global scales {1, 2^-36} x 5 aggregators x rows x 2^-10..2^-24"}, nontrivial=True)
 
 
 def upgrad_ladder(chk, rng, n_cases, found):
